@@ -31,3 +31,24 @@ package state
 //@   assigns  s.LastBlockHeight, s.LastBlockID.*, s.LastBlockTime.*, s.Validators, s.LastValidators, s.LastNonEmptyHeight
 //@   ensures  [chain-links-to-applied-block] s.LastBlockHeight == header.Height && s.LastBlockID.Hash == headerHashOf(header) && s.LastBlockID.PartsHeader == blockPartsHeader
 //@   ensures  [validator-sets-shift] s.Validators == nextValSet && s.LastValidators == prevValSet
+
+// ---------------------------------------------------------------------------------------------
+// proposer rotation when a block is applied (C16): exactly one round on a private copy, which becomes the next height's set
+
+//@ ghost gLastCopy Ref
+//@ func (*State).ExecBlock
+//@   props C16
+//@   requires s != nil && s.Validators != nil && block != nil && block.LastCommit != nil
+//@   nosafety
+//@   atcall Copy set gLastCopy = result
+//@   atcall IncrementAccum assert [one-round-per-block-on-a-private-copy] arg_valSet == gLastCopy && calls(Copy) == 2 && arg_times == 1 && calls(IncrementAccum) == 0
+//@   atcall SetBlockAndValidators assert [next-height-validators-are-the-rotated-copy] arg_nextValSet == gLastCopy && calls(IncrementAccum) == 1 && arg_prevValSet != gLastCopy && arg_prevValSet != old(s.Validators)
+
+// the bit array of signers is built in fresh storage: nothing that existed before is written
+//@ func commitBitArrayFromBlock
+//@   props C16
+//@   requires block != nil && block.LastCommit != nil
+//@   nosafety
+//@   assigns  nothing
+//@   loop 0 invariant 0 <= $i && $i <= len(block.LastCommit.Precommits)
+//@   loop 0 invariant (signed == nil && len(block.LastCommit.Precommits) == 0) || (wfBA(signed) && fresh(signed) && fresh(signed.Elems))
